@@ -91,6 +91,29 @@ type mutantResult struct {
 }
 
 func runMutants(repo, verif, property string) int {
+	results := computeMutants(repo, verif, property)
+	code := 0
+	for _, r := range results {
+		fmt.Printf("%-9s %-45s expect=%s\n", r.Status, r.Name, r.Expect)
+		if r.Status != "killed" && r.Status != "silent-ok" {
+			for _, rep := range r.Reports {
+				fmt.Printf("            reported: %s\n", rep)
+			}
+			if r.Note != "" {
+				fmt.Printf("            %s\n", r.Note)
+			}
+		}
+		if r.Status == "survived" || r.Status == "broken" || r.Status == "false-alarm" {
+			code = 3
+		}
+	}
+	b, _ := json.MarshalIndent(results, "", " ")
+	os.MkdirAll(filepath.Join(verif, "evidence", "mutants"), 0o755)
+	os.WriteFile(filepath.Join(verif, "evidence", "mutants", property+".json"), b, 0o644)
+	return code
+}
+
+func computeMutants(repo, verif, property string) []mutantResult {
 	exe, _ := os.Executable()
 	var sel []Mutant
 	for _, m := range mutants {
@@ -186,25 +209,7 @@ func runMutants(repo, verif, property string) int {
 	}
 	wg.Wait()
 	sort.Slice(results, func(i, j int) bool { return results[i].Name < results[j].Name })
-	code := 0
-	for _, r := range results {
-		fmt.Printf("%-9s %-45s expect=%s\n", r.Status, r.Name, r.Expect)
-		if r.Status != "killed" && r.Status != "silent-ok" {
-			for _, rep := range r.Reports {
-				fmt.Printf("            reported: %s\n", rep)
-			}
-			if r.Note != "" {
-				fmt.Printf("            %s\n", r.Note)
-			}
-		}
-		if r.Status == "survived" || r.Status == "broken" || r.Status == "false-alarm" {
-			code = 3
-		}
-	}
-	b, _ := json.MarshalIndent(results, "", " ")
-	os.MkdirAll(filepath.Join(verif, "evidence", "mutants"), 0o755)
-	os.WriteFile(filepath.Join(verif, "evidence", "mutants", property+".json"), b, 0o644)
-	return code
+	return results
 }
 
 func firstLines(s string, n int) string {
